@@ -100,7 +100,7 @@ fn env_f64(k: &str) -> Option<f64> {
 }
 
 fn watchdog() {
-    // a worker that makes no progress for 60 s is wedged: abort so the supervisor can attribute it
+    // a worker that makes no progress for 45 s is wedged: abort so the supervisor can attribute it
     std::thread::spawn(|| {
         let mut last = engine::progress();
         let mut idle = 0u32;
@@ -109,8 +109,8 @@ fn watchdog() {
             let now = engine::progress();
             if now == last {
                 idle += 1;
-                if idle >= 12 {
-                    eprintln!("WATCHDOG: no progress for 60 s");
+                if idle >= 9 {
+                    eprintln!("WATCHDOG: no progress for 45 s");
                     unsafe { libc::abort() };
                 }
             } else {
